@@ -10,7 +10,7 @@ import itertools
 
 import numpy as np
 
-from ..target import peaks_and_crossings as pc
+from ..target import eqsig, peaks_and_crossings as pc
 from ..result import Res
 from ..refs import peaks_ref as ref
 
@@ -105,6 +105,11 @@ def check_word(r, w, fam, containers=('f', 'i', 'l')):
             ok, got = r.call(pt, sub, pc.get_peak_array_indices, arr, pt)
             if ok:
                 r.expect_ints('ptype.' + pt, sub, got, [i for i, k in zip(idx, kinds) if k == pt])
+    # object-level wrapper
+    if n <= 5:
+        ok, got = r.call('all', dict(sub0, input='signal-object'), pc.get_peak_indices, eqsig.AccSignal(np.array(w, dtype=float), 0.01))
+        if ok:
+            r.expect_ints('all.equals-turning-points', dict(sub0, input='signal-object'), got, idx)
     # cycle counter
     arr = np.array(w, dtype=float)
     for opt in ('all', 'switched'):
